@@ -75,6 +75,15 @@ Section Push.
     | OProject f => map f rows
     end.
 
+  (** the list specification of a chain: operator after operator on the whole input *)
+  Definition chain_spec (ks : list opk) (rows : list R) : list R := fold_left (fun rs k => spec k rs) ks rows.
+
+  (** operators that never stop and have nothing to finalize / operators without any state *)
+  Definition streaming (k : opk) : bool :=
+    match k with OFilter _ | ODistinct _ | OProject _ => true | _ => false end.
+  Definition stateless_op (k : opk) : bool :=
+    match k with OFilter _ | OProject _ => true | _ => false end.
+
   (** *** one operator driven by Pipeline::execute: push every chunk until a push answers false,
       then finalize *)
   Fixpoint drive (k : opk) (s : opst) (cs : list (list R)) : opst * list (list R) :=
